@@ -1334,7 +1334,13 @@ class Interp:
             # ... and so is a loop over a local list whose rows are all
             # known on this path (built by a literal and appends)
             built = isinstance(s.iter, ast.Name) and kind(it) == 'list' and \
-                all(kind(x) == 'item' for x in it[1])
+                all(kind(x) == 'item' for x in it[1]) and \
+                len(it[1]) <= 6 and any(
+                    isinstance(n, ast.Assign) and len(n.targets) == 1 and
+                    isinstance(n.targets[0], ast.Name) and
+                    n.targets[0].id == s.iter.id and
+                    isinstance(n.value, ast.List)
+                    for n in ast.walk(self.fi.node))
             if (literal or built) and kind(it) in ('tuple', 'list') and \
                     0 < len(it[1]) <= 12 and \
                     all(kind(x) in ('tuple', 'list') or
